@@ -128,6 +128,23 @@ LookupCoherent == \A m \in Maps :
         IF own = {} THEN Decode(st.maps, m, a) = 0
         ELSE Decode(st.maps, m, a) = rs[CHOOSE k \in own : TRUE].id
    /\ \A i, j \in 1..Len(rs) : i # j => rs[i].id # rs[j].id                          \* each exactly once
+\* ---- C01, design level: the pattern view agrees with the map view -----------------------------
+\* what the generated decoders do: a resource is hit by range; a window is selected iff the high
+\* address bits equal start >> window.addr_width, and the low bits are forwarded
+RECURSIVE PatDecode(_, _, _)
+PatDecode(maps, m, a) ==
+  LET rs == {it \in maps[m].items : it.kind = "res" /\ it.start <= a /\ a < it.stop}
+      ws == {it \in maps[m].items : it.kind = "win" /\ it.ratio = 1
+                                    /\ a \div Pow2(maps[it.id].aw) = it.start \div Pow2(maps[it.id].aw)} IN
+  IF rs # {} THEN (CHOOSE it \in rs : TRUE).id
+  ELSE IF ws = {} THEN 0
+  ELSE LET w == CHOOSE it \in ws : TRUE IN PatDecode(maps, w.id, a % Pow2(maps[w.id].aw))
+AllRatio1 == \A m \in Maps : \A it \in st.maps[m].items : it.ratio = 1
+WindowsAtMultiplesOfSize == \A m \in Maps : \A it \in st.maps[m].items :
+                              it.kind = "win" => it.start % Pow2(st.maps[it.id].aw) = 0
+Agree == \A a \in 0..(Pow2(st.maps[1].aw) - 1) : PatDecode(st.maps, 1, a) = Decode(st.maps, 1, a)
+PatternAgreesWithMap == AllRatio1 /\ WindowsAtMultiplesOfSize => Agree
+PatternAgreesEvenUnaligned == AllRatio1 => Agree         \* vacuity witness: must be refuted
 \* vacuity witnesses (must be refuted)
 NoDenseWindowEver == \A x \in st.maps[1].items : x.ratio = 1
 NoAnonymousAbsorb == ~(\E x \in st.maps[1].items : x.kind = "win" /\ x.name = <<>> /\ st.maps[x.id].items # {})
